@@ -188,6 +188,9 @@ pub(super) struct Cfg {
     pub slew_min_dur: f64,
     pub max_src_unc: f64,
     pub sources: Vec<SrcKind>,
+    /// leap indicator each source reports with its measurements unless the event names one
+    /// itself (code: 0 NoWarning, 1 Leap61, 2 Leap59, 3 Unknown, 4 Unsynchronized); empty = all 0
+    pub leaps: Vec<u8>,
 }
 
 impl Default for Cfg {
@@ -210,6 +213,7 @@ impl Default for Cfg {
                 SrcKind::Two,
                 SrcKind::One { noise: 1e-6, accuracy: 0.0, period: None },
             ],
+            leaps: Vec::new(),
         }
     }
 }
@@ -276,7 +280,11 @@ impl Cfg {
             self.slew_min_dur,
             self.max_src_unc,
             src.join("+")
-        )
+        ) + &if self.leaps.iter().any(|l| *l != 0) {
+            format!(";lp={}", self.leaps.iter().map(|l| l.to_string()).collect::<Vec<_>>().join("+"))
+        } else {
+            String::new()
+        }
     }
     pub(super) fn decode(s: &str) -> Option<Cfg> {
         let mut c = Cfg::default();
@@ -298,6 +306,7 @@ impl Cfg {
                 "sm" => c.slew_max = v.parse().ok()?,
                 "sd" => c.slew_min_dur = v.parse().ok()?,
                 "mu" => c.max_src_unc = v.parse().ok()?,
+                "lp" => c.leaps = v.split('+').map(|t| t.parse().ok()).collect::<Option<Vec<u8>>>()?,
                 "src" => {
                     c.sources = v
                         .split('+')
@@ -587,6 +596,7 @@ pub(super) struct World {
     timer: Option<tokio::time::Instant>,
     pub dead: Option<End>,
     pub events_executed: u64,
+    leaps: Vec<u8>,
 }
 
 impl World {
@@ -627,6 +637,7 @@ impl World {
                     timer: None,
                     dead: None,
                     events_executed: 0,
+                    leaps: cfg.leaps.clone(),
                 };
             }
             assert!(tries < 100_000, "harness: could not obtain the demanded HashMap order");
@@ -810,6 +821,8 @@ impl World {
                     let off_k = off.saturating_add(wob.saturating_mul(po));
                     let delay_k = delay.saturating_add(dwob.saturating_mul(pd));
                     let localtime = NtpTimestamp::from_fixed_int(self.clock.local_now());
+                    // the event's own leap code wins, otherwise the source's configured one
+                    let leap = &(if *leap != 0 { *leap } else { self.leaps.get(si).copied().unwrap_or(0) });
                     let id = self.slots[si].id;
                     let r = match self.slots[si].src.as_mut().unwrap() {
                         Src::Two(c) => common::catch(|| {
@@ -1298,6 +1311,8 @@ where
 pub(super) struct M01 {
     synced: bool,
     acc: i128,
+    /// a leap vote has reached a majority at least once (vacuity bookkeeping only)
+    leap_majority_seen: bool,
 }
 
 fn outside(win: (Option<i64>, Option<i64>), d: i64) -> bool {
@@ -1391,6 +1406,17 @@ pub(super) fn judge01(cfg: &Cfg, m: &mut M01, tr: &Transition, mut rep: Option<&
             }
             if u.used.is_some() {
                 m.synced = true;
+                // status_update is called exactly when the leap vote of the selection is conclusive
+                let majority = u.calls.iter().any(|c| matches!(c, Call::Status(_)));
+                m.leap_majority_seen |= majority;
+                if let Some(r) = rep.as_deref_mut() {
+                    if !majority {
+                        r.inc("consensus_without_leap_majority");
+                    }
+                    if !m.leap_majority_seen {
+                        r.inc("consensus_while_no_leap_majority_ever");
+                    }
+                }
             }
             if let Some(r) = rep.as_deref_mut() {
                 if u.kind == 0 && u.view.2 == m.synced {
@@ -1504,6 +1530,10 @@ fn alphabet01_full() -> Vec<Ev> {
     v.push(Ev::burst(G, -1500 * S, 0, S, 8, MS / 10, 0));
     // clock meddling: local time moved 1 s, monotonic time 100 s
     v.push(Ev::meas(A, 0, MS, S).with_mono(100_000_000_000));
+    // a measurement that carries leap Unknown whatever the source table says (synchronising
+    // without a leap majority, then an offset beyond every finite window)
+    v.push(Ev::meas(A, 0, MS, S).with_leap(3));
+    v.push(Ev::meas(A, 90_000 * S, MS, S).with_leap(3));
     // queued (not yet processed) measurements and single loop iterations
     v.push(Ev::meas(B, 700 * S, MS, S).deferred());
     v.push(Ev::meas(A, -700 * S, MS, S).deferred());
@@ -1626,14 +1656,17 @@ fn check() {
     let core = alphabet01_core();
     let (d_full, d_core) = if quick { (2, 4) } else { (3, 5) };
     let d_per = if quick { 3 } else { 4 };
+    let (dl_full, dl_core) = if quick { (1, 4) } else { (2, 4) };
     ctx.rule(&format!(
         "BFS over event histories of the real KalmanClockController + real source controllers (sources A,B two-way, G one-way), \
          per configuration (7 startup/single window pairs x accumulated in {{none,100 s,1800 s}} x {{min_agree, step_threshold, HashMap order}} variants) \
          and per start state (fresh / A in Kalman stage / accumulated = threshold-50 s / slew in flight): \
          all histories of <= {d_full} events (thorough: 3 for the first, 2 for the second variant of each window/accumulated pair) over the {}-symbol full alphabet (measurements of A,B,G with offsets 0,+-0.2,+-700,+-1500,+-90000,+-2^30 s, \
-         G also i64::MIN, i64::MIN+1, i64::MAX units, A also i64::MIN/MAX, dt 1 s|64 s; 8-sample bursts; clock meddling; queued measurement + single delivery; slew-end timer; usable on/off; remove) \
+         G also i64::MIN, i64::MIN+1, i64::MAX units, A also i64::MIN/MAX, dt 1 s|64 s; 8-sample bursts; clock meddling; two measurements with leap Unknown; queued measurement + single delivery; slew-end timer; usable on/off; remove) \
          and of <= {d_core} events over the {}-symbol core alphabet; plus, for three of the configurations with the one-way source made periodic (period 1 s), \
-         all histories of <= {d_per} events over a 14-symbol alphabet (sub-period offsets of the periodic source, voting two-way sources). States deduplicated on the exact bit pattern of all controller/source/channel/timer/clock state. \
+         all histories of <= {d_per} events over a 14-symbol alphabet (sub-period offsets of the periodic source, voting two-way sources); plus the leap indicator as an axis of the source table: \
+         every configuration again with all three sources reporting leap Unknown (4 start states built with that leap code; <= {dl_full} events full / <= {dl_core} core) and with A=Leap61, B=Leap59, G=Unknown \
+         (start state: A and B initialised while not yet usable, then announced, first consensus contains both = tie; <= 2 events full / <= {dl_core} core; plus fresh / core), i.e. synchronised states in which the leap vote never had a majority; the default table (all NoWarning) is the majority case. States deduplicated on the exact bit pattern of all controller/source/channel/timer/clock state. \
          Distinct & non-trivial = a distinct end state reached by a transition in which the controller was invoked.",
         full.len(),
         core.len()
@@ -1682,6 +1715,57 @@ fn check() {
             }
         }
     }
+    // leap indicator as an axis of the source table: "synchronised, but the leap vote has no
+    // majority" (every used source reports Unknown; or one Leap61 against one Leap59 under a
+    // quorum of 2). Every window/accumulated configuration is explored again under both
+    // constellations, the start states being built with the same leap codes.
+    let mut leap_specs = 0u64;
+    for cfg in &cfgs {
+        let unknown = Cfg { leaps: vec![3, 3, 3], ..cfg.clone() };
+        for (name, prefix) in starts01(&unknown) {
+            for (alpha, depth, tag) in [(&full, dl_full, "full"), (&core, dl_core, "core")] {
+                specs.push(Spec {
+                    rank: 0,
+                    name: format!("leap-all-unknown/{name}/{tag}"),
+                    cfg: unknown.clone(),
+                    prefix: prefix.clone(),
+                    alphabet: alpha.clone(),
+                    depth,
+                });
+                leap_specs += 1;
+            }
+        }
+        // A says Leap61, B says Leap59, G Unknown. A vote only ties when A and B are both selected,
+        // and two usable sources that disagree are never selected, so the tie is set up the way
+        // it arises in practice: both sources finish their initialisation before they are
+        // announced usable; the first consensus then contains both (tie, no majority). Dropping
+        // or disabling one of them afterwards lets the other one steer alone.
+        let tie = Cfg { leaps: vec![1, 2, 3], ..cfg.clone() };
+        let tie_synced = vec![
+            Ev::Usable { src: G, on: true },
+            init_burst(A),
+            init_burst(B),
+            Ev::Usable { src: A, on: true },
+            Ev::Usable { src: B, on: true },
+            Ev::meas(A, 0, MS, S),
+        ];
+        for (name, prefix, alpha, depth, tag) in [
+            ("tie-synced", tie_synced.clone(), &full, 2, "full"),
+            ("tie-synced", tie_synced, &core, dl_core, "core"),
+            ("fresh", prefix_usable(), &core, dl_core, "core"),
+        ] {
+            specs.push(Spec {
+                rank: 0,
+                name: format!("leap-tie/{name}/{tag}"),
+                cfg: tie.clone(),
+                prefix,
+                alphabet: alpha.clone(),
+                depth,
+            });
+            leap_specs += 1;
+        }
+    }
+    ctx.set("leap_constellation_explorations", leap_specs);
     // periodic one-way source instead of G: three threshold configurations, two start states
     let periodic = alphabet01_periodic();
     let mut picked: Vec<&Cfg> = Vec::new();
